@@ -907,6 +907,23 @@ func (in *Inst) binop(x *ssa.BinOp, st *State) Val {
 			e.note("bitwise xor on wide operands is uninterpreted")
 		}
 	case token.SHL:
+		if one, ok := constInt(x.X); ok && one == 1 && ii.bits == 64 {
+			// 1 << y for a variable y: exact by cases (y >= 64 gives 0; signed 1<<63 is the minimum)
+			var bld strings.Builder
+			closeN := 0
+			for k := 0; k < 64; k++ {
+				v := pow2(int64(k)).String()
+				if k == 63 && ii.signed {
+					v = "(- 9223372036854775808)"
+				}
+				fmt.Fprintf(&bld, "(ite (= %s %d) %s ", b.T, k, v)
+				closeN++
+			}
+			bld.WriteString("0")
+			bld.WriteString(strings.Repeat(")", closeN))
+			term = bld.String()
+			break
+		}
 		if c, ok := constInt(x.Y); ok && c >= 0 && c < 64 {
 			term = ii.wrap(sApp("*", a.T, pow2(c).String()))
 			term = sIte(ii.rangeOf(sApp("*", a.T, pow2(c).String())), sApp("*", a.T, pow2(c).String()), term)
